@@ -42,7 +42,8 @@ def jobs(tier):
                           f"slice bounds {'let constants' if lazy else 'literals'}; oracle: composed start+i*step arithmetic over explicit element lists",
                           functions=FUNCS[:3] + ["Register.__init__", "NamedQubit.__init__", "Register.__getitem__"]))
     for t in WITH_MAPS + ["t_index", "t_macro_idx"] + ([] if q else ["t_blocks"]):
-        out.extend(tjobs(f"{H}:c06_mapfill", t, tier, functions=FUNCS, timeout=200,
+        out.extend(tjobs(f"{H}:c06_mapfill", t, tier, functions=FUNCS, timeout=400,
+                         shrink=({"i": (0, 1), "j": (0, 1)} if (q and t in ("t_macro_twice", "t_shadow_reg", "t_macro_single")) else None),
                          note=f"{t}: fill_in_map after fill_in_let (and after expand_macros); oracle: meaning unchanged, no alias referenced any more, "
                               "get_used_qubit_indices == reference set"))
     for t in (["t_alias_macro", "t_chain", "t_slice_let"] if q else WITH_MAPS):
